@@ -154,5 +154,25 @@ ANCHORS = {
         "neuroml/hdf5/NeuroMLXMLParser.py": ["NeuroMLXMLParser._parse_delay"],
         "neuroml/utils.py": ["print_summary", "get_summary", "has_segment_fraction_info"],
     },
-    # C20 compares two source files; nothing of the library is executed by its tie.
+    # C20 (second pass): besides comparing source files, the tie now EXECUTES the shipped bindings against the freshly
+    # regenerated ones (differential stream `behaviour-null`): every helper method of nml.py, MethodSpec in the helper source
+    # (loaded by path), and the writer's schemaLocation. (The generated methods are sampled too but not listed here.)
+    "C20": {
+        NML: ["*." + n for n in (
+            "__sectionise _format _get_cell_id _get_population add_channel_density add_channel_density_v "
+            "add_intracellular_property add_membrane_property add_segment add_segment_group add_unbranched_segment_group "
+            "add_unbranched_segments append biophysinfo create_unbranched_segment_group_branches distance_to exportHdf5 "
+            "get_actual_proximal get_all_distances_from_segment get_all_segments_in_group get_branching_points get_by_id "
+            "get_delay_in_ms get_distance get_extremeties get_fraction_along get_graph get_morphology_root "
+            "get_ordered_segments_in_groups get_post_cell_id get_post_fraction_along get_post_info get_post_segment_id "
+            "get_pre_cell_id get_pre_fraction_along get_pre_info get_pre_segment_id get_segment get_segment_adjacency_list "
+            "get_segment_group get_segment_group_info get_segment_groups_by_substring get_segment_id "
+            "get_segment_ids_vs_segments get_segment_length get_segment_location_info get_segment_surface_area "
+            "get_segment_volume get_segments_at_distance get_segments_by_substring get_size get_target_cell_id "
+            "get_target_population get_weight length morphinfo num_segments optimise_segment_group optimise_segment_groups "
+            "reorder_segment_groups set_init_memb_potential set_resistivity set_specific_capacitance set_spike_thresh "
+            "setup_default_segment_groups setup_nml_cell summary surface_area volume").split()],
+        "neuroml/nml/helper_methods.py": ["MethodSpec.*"],
+        "neuroml/writers.py": ["NeuroMLWriter.write"],
+    },
 }
